@@ -238,7 +238,8 @@ LvString(lvl) == IF lvl = {} THEN "NONE" ELSE IF lvl = AllBits THEN "ALL" ELSE L
 Keep(s, r) == [s |-> s, ret |-> r]
 
 \* the Stack decoded by Marshal: empty ("Z") when only the label was given
-MarshalVal(c) == IF c.xs = <<>> \/ c.kind = "BASIC" THEN "Z" ELSE "S"     \* Z: renders as nothing
+\* a CONDITION row decodes into a Condition ("C"), which an initialised receiver gains through the same Push
+MarshalVal(c) == IF c.kind = "CONDITION" THEN "C" ELSE IF c.xs = <<>> \/ c.kind = "BASIC" THEN "Z" ELSE "S"     \* Z: renders as nothing
 
 IsMutator(op) ==
   op \in {"Push", "Pop", "Insert", "Remove", "Replace", "Swap", "Reverse", "Reset",
